@@ -14,7 +14,7 @@ RULE = ("spec->code: every transition of the SectionAlgo state graph (TLC, explo
 def params(ctx):
     if ctx.tier == "thorough":
         return dict(names=["A", "a", "", "A:1"], keys=["A", "a", "A:1", "A:2", "UNKNOWN", "Z"], maxlen=3,
-                    limit=None, nrand=20000, maxops=10)
+                    limit=150000, nrand=20000, maxops=10)
     return dict(names=["A", "a", "", "A:1"], keys=["A", "a", "A:1", "A:2", "UNKNOWN", "Z"], maxlen=2,
                 limit=6000, nrand=1500, maxops=8)
 
